@@ -469,6 +469,22 @@ class C10(Check):
                         d = [(x, y) for x, y in zip(before, after) if x != y][:2]
                         return "the copy loaded with %s (protocol %d, caching %s) differs from the original: %r" % (
                             loader.__name__, proto, caching, d)
+        # every object of the graph is a possible ROOT: pickle single vertices / links too
+        for obj in rng.sample(list(V) + list(L), min(4, len(V) + len(L))):
+            for proto in (0, 2, 4, 5):
+                try:
+                    o2 = pickle.loads(nrpickler.dumps(obj, protocol=proto))
+                except Exception as exc:  # noqa: BLE001
+                    return "pickling a single %s as the root (protocol %d) raised %s: %s" % (
+                        type(obj).__name__, proto, type(exc).__name__, exc)
+                same = type(o2).__qualname__ == type(obj).__qualname__ and o2.uid == obj.uid and [u.uid for u in o2.universes] == [u.uid for u in obj.universes]
+                if same and isinstance(obj, Vertex):
+                    same = [l.uid for l in o2.links] == [l.uid for l in obj.links] and sorted(k for k in vars(o2) if not k.startswith("_")) == sorted(
+                        k for k in vars(obj) if not k.startswith("_"))
+                elif same:
+                    same = [None if x is None else x.uid for x in o2.vertices] == [None if x is None else x.uid for x in obj.vertices]
+                if not same:
+                    return "a single %s pickled as the root (protocol %d) came back different" % (type(obj).__name__, proto)
         if describe(V, L, W) != before:
             return "serialising changed the original graph"
         if fresh:
